@@ -624,25 +624,169 @@ impl World for ConfigExport {
     }
 }
 
+// ---------------------------------------------------------------------------------------------
+// batch: configuration export of the shipped templates
+
+pub struct TemplateExport;
+
+fn template_ron(case: &crate::tw::templates::TCase, clone: bool) -> Result<String, String> {
+    use crate::tw::problems::*;
+    use crate::tw::templates::*;
+    fn go<P: HProblem>(case: &TCase, clone: bool, build: impl Fn(&TCase, Box<dyn mahf::Condition<P>>) -> mahf::ExecResult<mahf::Configuration<P>>) -> Result<String, String> {
+        let (cond, _, _) = termination::<P>(case.term);
+        let cfg = build(case, cond).map_err(|e| format!("constructor: {e:#}"))?;
+        let cfg = if clone { cfg.clone() } else { cfg };
+        let path = scratch_dir().join("template.ron");
+        cfg.to_ron(&path).map_err(|e| format!("{e:#}"))?;
+        let t = std::fs::read_to_string(&path).map_err(|e| e.to_string())?;
+        let _ = std::fs::remove_file(&path);
+        Ok(t)
+    }
+    match case.kind.family() {
+        Family::Real => go::<RealP>(case, clone, build_real::<RealP>),
+        Family::Bin => go::<BinP>(case, clone, build_bin::<BinP>),
+        Family::Perm | Family::Tsp => go::<TspP>(case, clone, build_perm::<TspP>),
+    }
+}
+
+fn numbers_in(text: &str) -> Vec<f64> {
+    let mut out = Vec::new();
+    let mut cur = String::new();
+    let mut in_str = false;
+    for ch in text.chars() {
+        if ch == '"' {
+            in_str = !in_str;
+            continue;
+        }
+        if in_str {
+            continue;
+        }
+        if ch.is_ascii_digit() || ch == '.' || ch == '-' || ch == 'e' || ch == 'E' || ch == '+' {
+            cur.push(ch);
+        } else {
+            if let Ok(v) = cur.parse::<f64>() {
+                out.push(v);
+            }
+            cur.clear();
+        }
+    }
+    if let Ok(v) = cur.parse::<f64>() {
+        out.push(v);
+    }
+    out
+}
+
+impl World for TemplateExport {
+    type Case = crate::tw::templates::TCase;
+    fn name(&self) -> &'static str {
+        "config-export-templates"
+    }
+    fn generate(&self, run_seed: u64, _tier: Tier) -> Self::Case {
+        use crate::tw::templates::*;
+        let mut g = rng::stream(run_seed, "workload");
+        let mut kinds = SHIPPED.to_vec();
+        kinds.push(Kind::GaArchive);
+        kinds.push(Kind::EsArchive);
+        let kind = *g.pick(&kinds);
+        gen_case(&mut g, kind, &GenOpts { penalty: false, max_iters: 50, evaluations_term: true, log: false })
+    }
+    fn execute(&self, case: &Self::Case) -> Outcome<Self::Case> {
+        use crate::tw::templates::*;
+        let mut out = Outcome::new();
+        out.evaluations = 1;
+        out.steps = 1;
+        bump(&mut out.counters, &format!("exports of {}", case.kind.name()), 1);
+        let mut fp = Fp::new();
+        fp.str(&format!("{:?}{:?}{:?}", case.kind, case.params, case.term));
+        out.fingerprints.push(fp.0);
+        let tname = case.kind.name();
+        let v = (|| {
+            let text = match template_ron(case, false) {
+                Ok(t) => t,
+                Err(e) if e.starts_with("constructor:") => {
+                    eprintln!("harness error: template constructor rejected generated parameters: {e}");
+                    std::process::exit(2);
+                }
+                Err(e) => return Some(Violation::new(format!("template-not-serialisable template={tname}"), format!("{tname}: to_ron failed: {e}"))),
+            };
+            let nums = numbers_in(&text);
+            for (k, v) in &case.params {
+                if !nums.iter().any(|x| x.to_bits() == v.to_bits() || (*x - *v).abs() <= 1e-12 * v.abs()) {
+                    return Some(Violation::new(format!("template-export-misses-parameter template={tname} parameter={k}"), format!("{tname}: parameter {k} = {v} does not occur in the serialised configuration")));
+                }
+            }
+            let n = match case.term {
+                Term::Iterations(n) | Term::Evaluations(n) => n as f64,
+            };
+            if !nums.contains(&n) {
+                return Some(Violation::new(format!("template-export-misses-parameter template={tname} parameter=termination"), format!("{tname}: the termination bound {n} does not occur in the serialised configuration")));
+            }
+            for needle in ["Loop", "Logger", "PopulationEvaluator", "LessThanN"] {
+                if !text.contains(needle) {
+                    return Some(Violation::new(format!("template-export-misses-component template={tname}"), format!("{tname}: {needle} does not occur in the serialised configuration")));
+                }
+            }
+            match template_ron(case, true) {
+                Ok(t2) if t2 == text => {}
+                _ => return Some(Violation::new(format!("template-export-clone-differs template={tname}"), format!("{tname}: a clone serialises differently"))),
+            }
+            // a configuration with one parameter changed serialises differently
+            let mut g = crate::rng::Gen::new(fp.0);
+            let keys: Vec<&String> = case.params.keys().collect();
+            if !keys.is_empty() {
+                let k = keys[g.below(keys.len())].clone();
+                let other = gen_case(&mut g, case.kind, &GenOpts { penalty: false, max_iters: 50, evaluations_term: false, log: false });
+                if let (Some(a), Some(b)) = (case.params.get(&k), other.params.get(&k)) {
+                    if a != b {
+                        let mut p = case.params.clone();
+                        p.insert(k.clone(), *b);
+                        // keep cross-parameter constraints: take the whole consistent set when needed
+                        let variant = TCase { params: if matches!(k.as_str(), "deviation" | "pc" | "pm" | "rm" | "f" | "alpha" | "beta" | "gamma" | "delta" | "t_0" | "c_one" | "c_two" | "start_weight" | "end_weight" | "evaporation" | "mole_coll" | "buffer" | "initial_kinetic_energy") { p } else { other.params.clone() }, problem: case.problem.clone(), ..case.clone() };
+                        if variant.params != case.params {
+                            if let Ok(t3) = template_ron(&variant, false) {
+                                bump(&mut out.counters, "probe:compared with a differing configuration", 1);
+                                if t3 == text {
+                                    return Some(Violation::new(format!("template-export-not-injective template={tname}"), format!("{tname}: changing {k} from {a} to {b} does not change the serialisation")));
+                                }
+                            }
+                        }
+                    }
+                }
+            }
+            None
+        })();
+        if let Some(v) = v {
+            out.violation = Some((v, case.clone()));
+        }
+        out
+    }
+}
+
 pub fn run(tier: Tier, seed: u64, known: &KnownFindings) -> CheckReport {
     let mk = |batch: &'static str, runs: u64| BatchConfig { check_id: "C15", batch, base_seed: seed, tier, runs, threads: threads(), known, samples: 1 };
     let b1 = run_batch(&LogContent, &mk("log-content", tier.pick(15_000, 600_000)));
     let b2 = run_batch(&ExportFaults, &mk("export-faults", tier.pick(1_500, 60_000)));
     let b3 = run_batch(&DevFull, &mk("dev-full", tier.pick(200, 3_000)));
     let b4 = run_batch(&ConfigExport, &mk("config-export-trees", tier.pick(3_000, 100_000)));
+    let b5 = run_batch(&TemplateExport, &mk("config-export-templates", tier.pick(3_000, 100_000)));
+    let b6 = {
+        // par_experiment prints a line per call
+        let _quiet = crate::par::StdoutSilencer::new();
+        run_batch(&crate::checks::experiment::Experiment { prop: "C15" }, &mk("par-experiment-files", tier.pick(600, 30_000)))
+    };
     CheckReport {
         property_id: "C15".into(),
         tier,
         seed,
         level: "fault_enumeration",
-        rule: "log-content: one case = a generated configuration with loggers (inside loops, scopes, branches; several loggers; zero-pass loops) and a rule set (always / never / scripted / real-condition triggers; ValueOf and IdLens extractors over present and absent states; duplicate names; the iteration counter as an extractor), run fault-free or with one injected failure; the expected log comes from the reference interpreter and is compared with the JSON and the CBOR export after decoding; non-trivial = the expected log has at least one step; distinct = distinct expected logs. export-faults: one case = (log or configuration, format json|cbor|ron, I/O fault plan); for the all-offsets plans the device-full fault is enumerated over EVERY byte offset of the fault-free output; oracle: Ok(()) implies the bytes on the simulated disk decode to the expected content, transient faults (short writes, EINTR) must not fail the export. dev-full: the same against the kernel's /dev/full without any hook. config-export-trees: to_ron of generated trees: succeeds, shows the pre-order sequence of components and parameter values, equals the clone's, differs from a mutated tree's".into(),
+        rule: "log-content: one case = a generated configuration with loggers (inside loops, scopes, branches; several loggers; zero-pass loops) and a rule set (always / never / scripted / real-condition triggers; ValueOf and IdLens extractors over present and absent states; duplicate names; the iteration counter as an extractor), run fault-free or with one injected failure; the expected log comes from the reference interpreter and is compared with the JSON and the CBOR export after decoding; non-trivial = the expected log has at least one step; distinct = distinct expected logs. export-faults: one case = (log or configuration, format json|cbor|ron, I/O fault plan); for the all-offsets plans the device-full fault is enumerated over EVERY byte offset of the fault-free output; oracle: Ok(()) implies the bytes on the simulated disk decode to the expected content, transient faults (short writes, EINTR) must not fail the export. dev-full: the same against the kernel's /dev/full without any hook. config-export-trees: to_ron of generated trees: succeeds, shows the pre-order sequence of components and parameter values, equals the clone's, differs from a mutated tree's. config-export-templates: every shipped template (and the ga/es archive assemblies) over its parameter ranges: to_ron succeeds, every parameter value and the termination bound occur in the text, clone identical, one changed parameter changes the text. par-experiment-files: par_experiment on the simulated pool under seeded schedules and I/O fault plans (mkdir fail, create fail on the k-th file, device full / flush failure on one file, short writes + EINTR): a fired failing fault means Err (mkdir / configuration.ron failure: before any objective call); otherwise Ok, the file set is exactly configuration.ron + name_run.cbor, configuration.ron equals to_ron, every log file decodes to the log of that (problem, seed) executed alone".into(),
         assumptions: vec![
             "a logger with no iteration counter in sight is outside the statement (it presupposes a current iteration count); the generator always provides a loop initialised in the outermost scope".into(),
             "after an export returned Err nothing is claimed about the file".into(),
         ],
         real_components: vec!["mahf::logging::{Logger, LogConfig, Log (to_json, to_cbor)}".into(), "mahf::Configuration::to_ron, serde_json, ciborium, ron".into(), "std::fs on the fault-free paths and for /dev/full".into()],
         stubbed_components: vec!["the disk under injected faults (in-memory SimDisk behind the cfg(mahf_verif) I/O seam)".into(), "leaf components and scripted triggers".into()],
-        batches: vec![b1, b2, b3, b4],
+        batches: vec![b1, b2, b3, b4, b5, b6],
         extra: Default::default(),
     }
 }
